@@ -31,7 +31,7 @@ NOT_COVERED = ["the read-only queries are equal for the two flavours by construc
 PREDICATE_SPEC = True
 RULE = ("every ordered labelled forest over 3 nodes x every call with node arguments (children sequences up to length 2) x single "
         "fault positions sampled, plus seeded random histories of length up to 10/25 over 3-6 nodes with random fault schedules; "
-        "after each history every read-only query listed in the level text on every node. Distinct = distinct history; non-trivial "
+        "after each history (for 40% of the random histories: after every call) every read-only query listed in the level text on every node. Distinct = distinct history; non-trivial "
         "= history of at least 3 calls.")
 
 
@@ -55,8 +55,26 @@ def generate(tier, rng):
                 o["faults"] = {"at": [rng.randrange(0, 10)]}
             elif r < 0.3:
                 o["faults"] = {"kinds": rng.sample(fc.ALL_KINDS, 2)}
-        yield {"fam": "lockstep", "asrt": False, "n0": n0, "ops": ops, "nmcls": rng.choice(["mixin", "node", "anynode", "eqmixin"]),
-               "params": _params(rng, n0 + 3)}
+        c = {"fam": "lockstep", "asrt": False, "n0": n0, "ops": ops, "nmcls": rng.choice(["mixin", "node", "anynode", "eqmixin"]),
+             "params": _params(rng, n0 + 3)}
+        if rng.random() < 0.4:
+            c["observe_each"] = True      # all read-only queries after every call, not only at the end
+        yield c
+
+
+_FIXED_PATHS = ["*", "**", "../*", "n1", "/n0/*", "*/n2", "..", "n?", "**/n3", "**/..", "**/../*", "**/**", "*/**/..", "../**"]
+_COMPONENTS = ["*", "**", "..", ".", "n1", "n2", "n3", "n?", "n*", "", "N1"]
+
+
+def _rand_path(rng):
+    """a glob pattern composed of wildcard, recursive, upward and literal components (so that one node can be reached
+    along several routes: the de-duplication sites)"""
+    if rng.random() < 0.5:
+        return rng.choice(_FIXED_PATHS)
+    parts = [rng.choice(_COMPONENTS) for _ in range(rng.randrange(1, 5))]
+    if rng.random() < 0.2:
+        parts = ["", "n0"] + parts
+    return "/".join(parts)
 
 
 def _params(rng, n):
@@ -64,8 +82,7 @@ def _params(rng, n):
     return {"stop": rng.sample(labs, rng.choice([0, 0, 1])), "filter_out": rng.sample(labs, rng.choice([0, 1, 2])),
             "maxlevel": rng.choice([None, None, 1, 2, 3]),
             "pairs": [[rng.randrange(n), rng.randrange(n)] for _ in range(4)],
-            "queries": [[rng.randrange(n), rng.choice(["*", "**", "../*", "n1", "/n0/*", "*/n2", "..", "n?", "**/n3"]), rng.random() < 0.5]
-                        for _ in range(4)],
+            "queries": [[rng.randrange(n), _rand_path(rng), rng.random() < 0.5] for _ in range(6)],
             "export_roots": [rng.randrange(n)]}
 
 
